@@ -486,6 +486,115 @@ def e2e_jobs(tier):
             for sp in ((True, False) if n <= 2 else (True,))]
 
 
+# ------------------------------------------------------------------ end to end: trees, globs and symbolic links
+TREE_SIZES = [0, 1, 2, 3, 7, 5000, 40000]
+
+
+def tree_worker(job):
+    """A directory tree (files of several sizes, a subdirectory, symbolic links to files whose target path is
+    shorter and longer than the file they name) transferred by get/put/copy with recurse=True, by mget/mput/mcopy
+    with a pattern, and by naming a link directly; follow_symlinks on and off; SFTP versions 3 and 6.  Every regular
+    file at the destination has exactly the bytes of its source (a followed link: of the file it names); an
+    unfollowed link arrives as a link; nothing is missing."""
+    acc = core.Acc()
+    for case in job:
+        op, how, follow, version = case
+        root = os.path.join(SCRATCH, 'tree-%d' % os.getpid())
+        shutil.rmtree(root, ignore_errors=True)
+        srvroot = os.path.join(root, 'srv')
+        os.makedirs(srvroot)
+        src_on_server = op in ('get', 'copy')
+        base = srvroot if src_on_server else os.path.join(root, 'local')
+        tree = os.path.join(base, 'tree')
+        os.makedirs(os.path.join(tree, 'sub'))
+        files = {}
+        for i, n in enumerate(TREE_SIZES):
+            rel = ('f%d' % i) if i % 2 == 0 else ('sub/g%d' % i)
+            with open(os.path.join(tree, rel), 'wb') as f:
+                f.write(content(n, i))
+            files[rel] = content(n, i)
+        links = {}
+        for i, n in enumerate(TREE_SIZES):
+            rel = ('f%d' % i) if i % 2 == 0 else ('sub/g%d' % i)
+            # links live at the top of the tree: target text 2..6 characters, named file 0..40000 bytes
+            os.symlink(rel, os.path.join(tree, 'l%d' % i))
+            links['l%d' % i] = rel
+        os.symlink('../../tree/f6', os.path.join(tree, 'sub', 'up-and-down'))     # through the tree's parent
+        links['sub/up-and-down'] = '../../tree/f6'
+        os.symlink('../f0', os.path.join(tree, 'sub', 'to-empty'))                     # 5 chars -> 0 bytes
+        links['sub/to-empty'] = '../f0'
+        loop = P.fresh(0)
+        viol = []
+        try:
+            pair = P.Pair(loop, sopts=dict(sftp_factory=lambda chan: asyncssh.SFTPServer(chan, chroot=srvroot), sftp_version=version))
+            pair.handshake()
+            dst_on_server = op in ('put', 'copy')
+            dbase = srvroot if dst_on_server else os.path.join(root, 'localdst')
+            os.makedirs(os.path.join(dbase, 'dst'), exist_ok=True)
+
+            async def body():
+                async with pair.c.start_sftp_client(sftp_version=version) as sftp:
+                    src = 'tree' if src_on_server else tree
+                    dst = 'dst' if dst_on_server else os.path.join(dbase, 'dst')
+                    fn = {'get': sftp.get, 'put': sftp.put, 'copy': sftp.copy}[op]
+                    mfn = {'get': sftp.mget, 'put': sftp.mput, 'copy': sftp.mcopy}[op]
+                    if how == 'recurse':
+                        await fn(src, dst, recurse=True, follow_symlinks=follow)
+                    elif how == 'glob':
+                        await mfn(src + '/*', dst + '/tree', recurse=True, follow_symlinks=follow) if os.makedirs(os.path.join(dbase, 'dst', 'tree'), exist_ok=True) is None else None
+                    else:
+                        os.makedirs(os.path.join(dbase, 'dst', 'tree', 'sub'), exist_ok=True)
+                        for lk in sorted(links):
+                            await fn(src + '/' + lk, dst + '/tree/' + lk, follow_symlinks=follow)
+            t = loop.create_task(body())
+            loop.flush_all(horizon=2000000)
+            out = os.path.join(dbase, 'dst', 'tree')
+            if not t.done():
+                viol.append(('hang', 'did not finish'))
+            elif t.exception() is not None:
+                viol.append(('e2e-failed', repr(t.exception())[:300]))
+            else:
+                for rel, data in files.items():
+                    if how == 'named':
+                        continue
+                    p = os.path.join(out, rel)
+                    if not os.path.isfile(p) or os.path.islink(p):
+                        viol.append(('missing', '%s is not a regular file at the destination' % rel))
+                    elif open(p, 'rb').read() != data:
+                        viol.append(('corrupt-result', '%s: %d bytes at the destination, source has %d' % (rel, os.path.getsize(p), len(data))))
+                for lk, target in links.items():
+                    p = os.path.join(out, lk)
+                    want = files[os.path.normpath(os.path.join('tree', os.path.dirname(lk), target))[len('tree/'):]]
+                    if follow:
+                        if os.path.islink(p) or not os.path.isfile(p):
+                            viol.append(('link-not-followed', '%s should have arrived as a copy of the file it names' % lk))
+                        elif open(p, 'rb').read() != want:
+                            viol.append(('corrupt-result', 'followed link %s -> %s: %d bytes at the destination, the named file has %d'
+                                         % (lk, target, os.path.getsize(p), len(want))))
+                    else:
+                        # (the target text is the confined server's business -- it hands out and stores root-relative
+                        # targets -- and not part of this property)
+                        if not os.path.islink(p):
+                            viol.append(('link-not-preserved', '%s should have arrived as a symbolic link' % lk))
+            if loop.unretrieved():
+                viol.append(('loop-exception', repr(loop.exc_log[0].get('exception'))[:200]))
+        except Livelock as exc:
+            viol.append(('livelock', str(exc)))
+        finally:
+            P.done(loop)
+            shutil.rmtree(root, ignore_errors=True)
+        acc.add(core.digest(('tree',) + tuple(case)), transitions=len(files) + len(links),
+                sample={'tree_transfer': {'op': op, 'how': how, 'follow_symlinks': follow, 'sftp_version': version}} if case == ('get', 'glob', True, 3) else None)
+        for k, d in viol:
+            acc.violation('sftp:%s:tree-%s-%s-%s' % (k, op, how, 'follow' if follow else 'nofollow'), '%s ; case=%r' % (d, case), {'tree': list(case)})
+    return acc
+
+
+def tree_jobs():
+    cases = [(op, how, follow, v) for op in ('get', 'put', 'copy') for how in ('recurse', 'glob', 'named') for follow in (False, True) for v in (3, 6)]
+    return [cases[i::12] for i in range(12)]
+
+
 def main(tier, seed):
     t0 = core.now()
     cfg = dict(op='get', size=17, b=4, r=2, sparse=False)
@@ -502,6 +611,7 @@ def main(tier, seed):
     acc = core.pmap(worker, core.rotate(js, seed), chunksize=4)
     acc.merge(core.pmap(e2e_worker, core.rotate(e2e_jobs(tier), seed)))
     acc.merge(core.pmap(e2e_versions_worker, e2v_jobs()))
+    acc.merge(core.pmap(tree_worker, tree_jobs()))
     shutil.rmtree(SCRATCH, ignore_errors=True)
     rule = ('operations get/put/copy (sparse and non-sparse), SFTPClientFile.read(size, offset) and write '
             '(r+b, wb, append) x block size {4,8} x max_requests {1,2,3} x sizes around block and request-window '
@@ -511,7 +621,8 @@ def main(tier, seed):
             'deviation-bounded DFS; oracle = model file store; plus end-to-end get/put/copy of tmpfs sparse files '
             'with 1..129 (thorough 300) page-sized data extents through a real asyncssh SFTP server; put/get/copy and '
             'open in wb/w/r+b/ab/xb and text mode (multi-byte characters, consecutive writes, seek) under SFTP versions 3-6 onto destinations that are absent, empty, shorter, '
-            'equal or longer')
+            'equal or longer; a tree with files of 7 sizes, a subdirectory and 9 symbolic links (target text shorter and longer than '
+            'the named file) by get/put/copy recurse, by mget/mput/mcopy pattern and link by link, follow_symlinks on/off, versions 3 and 6')
     return core.finish(PROP, tier, seed, 'model_checking', acc, t0, rule,
                        {'jobs': len(js), 'deviation_bound': '2 (1 for block size 8)' if tier == 'quick' else 3},
                        assumptions=['SFTP v3 framing; the SSH layer below the SFTP client is replaced by an '
@@ -522,6 +633,10 @@ def replay(rep):
     r = rep['replay']
     if 'e2v' in r:
         acc = e2e_versions_worker([tuple(r['e2v'])])
+        print(json.dumps(acc.violations, indent=1, default=repr))
+        return 1 if acc.violations else 0
+    if 'tree' in r:
+        acc = tree_worker([tuple(r['tree'])])
         print(json.dumps(acc.violations, indent=1, default=repr))
         return 1 if acc.violations else 0
     if 'e2e' in r:
